@@ -436,6 +436,12 @@ pub fn main(tier: Tier, seed: u64) -> i32 {
             shapes.push((rows, c, tier.is_thorough() && c <= 128, false));
         }
     }
+    // more row blocks, ragged and aligned column counts on both sides of the 128- and 512-column blocks
+    for rows in [512usize, 640, 1024] {
+        for c in [16usize, 24, 120, 128, 136, 256, 264, 504, 512, 520, 552, 1088] {
+            shapes.push((rows, c, false, false));
+        }
+    }
     // largest first so that the parallel schedule is balanced
     shapes.sort_by_key(|s| std::cmp::Reverse(s.0 * s.1 * if s.2 { 40 } else { 1 }));
     let stop = std::sync::atomic::AtomicBool::new(false);
@@ -445,7 +451,14 @@ pub fn main(tier: Tier, seed: u64) -> i32 {
             if budget.exhausted() {
                 stop.store(true, std::sync::atomic::Ordering::Relaxed);
             }
-            transpose_shape(*rows, *cols, *full, seed, *aligns)
+            // a panic of the subject on a shape it accepts is a violation, not a harness failure
+            match std::panic::catch_unwind(|| transpose_shape(*rows, *cols, *full, seed, *aligns)) {
+                Ok(st) => st,
+                Err(e) => {
+                    let msg = e.downcast_ref::<String>().cloned().or_else(|| e.downcast_ref::<&str>().map(|s| s.to_string())).unwrap_or_default();
+                    TStat { shapes: 1, cases: 1, basis_cases: 0, fails: vec![format!("{rows}x{cols}: transpose panicked: {}", msg.chars().take(120).collect::<String>())], full_basis_shapes: 0 }
+                }
+            }
         },
         &stop,
     );
@@ -466,20 +479,22 @@ pub fn main(tier: Tier, seed: u64) -> i32 {
     rep.set("transpose", json!({"shapes_planned": shapes.len(), "shapes_done": t_shapes, "cases": t_cases, "single_bit_cases": t_basis, "full_basis_shapes": t_full, "cap_hit": capped}));
     rep.sample(json!({"transpose_shape": "128 x 1000 (ragged: not a multiple of 128)", "inputs": "all-ones, checkerboards, 2 tape-derived, index-bit matrices, single-bit matrices; AVX2-dispatching and portable implementation vs. bit-by-bit reference"}));
 
-    let (c_n, c_basis, c_f) = clmul_checks(seed, if tier.is_thorough() { 200_000 } else { 10_000 });
+    let cl_n = if tier.is_thorough() { 200_000 } else { 10_000 };
+    let (c_n, c_basis, c_f) = std::panic::catch_unwind(|| clmul_checks(seed, cl_n)).unwrap_or_else(|_| (1, 0, vec!["clmul panicked".to_string()]));
     for f in &c_f {
         rep.violation("clmul", f.clone(), json!({"kind":"c20","what":f}));
     }
     rep.set("clmul", json!({"pairs": c_n, "basis_pairs": c_basis}));
     rep.sample(json!({"clmul_pair": "x^63 * x^64 -> expected low=0, high=x^127/2^... (schoolbook shift-and-xor with explicit low/high split)"}));
 
-    let (h_n, h_f) = hash_checks(seed, if tier.is_thorough() { 65536 } else { 4096 });
+    let thorough = tier.is_thorough();
+    let (h_n, h_f) = std::panic::catch_unwind(|| hash_checks(seed, if thorough { 65536 } else { 4096 })).unwrap_or_else(|_| (1, vec!["the AES hash panicked".to_string()]));
     for f in &h_f {
         rep.violation("aes_hash", f.clone(), json!({"kind":"c20","what":f}));
     }
     rep.set("aes_hash_evaluations", json!(h_n));
 
-    let (p_n, p_seqs, p_f) = prg_checks(seed, 1100, if tier.is_thorough() { 4 } else { 3 });
+    let (p_n, p_seqs, p_f) = std::panic::catch_unwind(|| prg_checks(seed, 1100, if thorough { 4 } else { 3 })).unwrap_or_else(|_| (1, 0, vec!["AesRng panicked".to_string()]));
     for f in &p_f {
         rep.violation(if f.contains("call sequence") { "aes_rng_sequence" } else { "aes_rng_keystream" }, f.clone(), json!({"kind":"c20","what":f}));
     }
@@ -489,7 +504,7 @@ pub fn main(tier: Tier, seed: u64) -> i32 {
     rep.evaluations = t_cases + c_n + h_n + p_n + p_seqs;
     rep.distinct_nontrivial = t_basis + c_basis + h_n + p_n;
     rep.exhaustive = Some(!capped);
-    rep.rule = "transpose: every shape 128 x c, c in 16,24..4096, and 256/384 x c up to 512; single-bit basis (full for small shapes / all shapes in thorough, structured subsets otherwise), index-bit matrices (which pin down any bit permutation), dense inputs, linearity on xor pairs, 16 buffer alignments; clmul: all 128x128 basis pairs, structured x structured, structured x dense, tape-derived pairs; AES hashes vs the aes crate under the fixed key; AesRng: every request length 0..1100 from a fresh generator for 8 seeds vs AES-CTR keystream, and every call sequence of fixed length over 10 call kinds. distinct non-trivial = basis cases + lengths + hash blocks".into();
+    rep.rule = "transpose: every shape 128 x c, c in 16,24..4096, and 256/384 x c up to 512, 512/640/1024 x 12 column counts around the 128- and 512-column blocks; single-bit basis (full for small shapes / all shapes in thorough, structured subsets otherwise), index-bit matrices (which pin down any bit permutation), dense inputs, linearity on xor pairs, 16 buffer alignments; clmul: all 128x128 basis pairs, structured x structured, structured x dense, tape-derived pairs; AES hashes vs the aes crate under the fixed key; AesRng: every request length 0..1100 from a fresh generator for 8 seeds vs AES-CTR keystream, and every call sequence of fixed length over 10 call kinds. distinct non-trivial = basis cases + lengths + hash blocks".into();
     rep.assumptions = vec!["AES over its full 2^128 domain is not enumerable; only the structured and tape-derived blocks are covered".into(), "the dispatching entry points take the AVX2/PCLMUL path on this CPU; the portable implementations are called directly".into()];
     rep.finish()
 }
